@@ -77,7 +77,7 @@ theorem lexEmitTagLexeme_c (c : Common) (l : LexRegs) (x : Ctx κ) (sim : Sim) (
 theorem lexStampTag_state (c : Common) (sim : Sim) (tok : TagOutline) : (lexStampTag c sim tok).1.state = c.state := by
   cases tok <;> rfl
 
-theorem lexEmitTag_state (c : Common) (l : LexRegs) (x : Ctx κ) : (lexEmitTag env inp c l x).1.c.state = c.state := by
+theorem lexEmitTag_cstate (c : Common) (l : LexRegs) (x : Ctx κ) : (lexEmitTag env inp c l x).1.c.state = c.state := by
   unfold lexEmitTag
   split
   · rfl
@@ -98,7 +98,7 @@ theorem lexEmitTag_state (c : Common) (l : LexRegs) (x : Ctx κ) : (lexEmitTag e
           rw [lexEmitTagLexeme_c, lexStampTag_state]
           exact lexHandleFeedback_state (c := { c with lastTextType := .data }) (c' := cs.1) (s' := cs.2) hh
 
-theorem lexAct_state (a : ActName) (c : Common) (l : LexRegs) (x : Ctx κ) :
+theorem lexAct_cstate (a : ActName) (c : Common) (l : LexRegs) (x : Ctx κ) :
     (lexAct env a inp c l x).1.c.state = c.state := by
   cases a <;> simp only [lexAct]
   case emitText => rw [lexEmitText_c]
@@ -107,7 +107,7 @@ theorem lexAct_state (a : ActName) (c : Common) (l : LexRegs) (x : Ctx κ) :
   case emitCurrentTokenAndEof => rw [andThen_eof_c, lexEmitNonTag_c]
   case emitRawWithoutToken => rw [lexEmitNonTag_c]
   case emitRawWithoutTokenAndEof => rw [andThen_eof_c, lexEmitNonTag_c]
-  case emitTag => exact lexEmitTag_state c l x
+  case emitTag => exact lexEmitTag_cstate c l x
   all_goals (first
     | rfl
     | (split <;> rfl)
@@ -116,7 +116,7 @@ theorem lexAct_state (a : ActName) (c : Common) (l : LexRegs) (x : Ctx κ) :
 theorem act_state (a : ActName) (m : M κ) : (act env a inp m).1.c.state = m.c.state := by
   obtain ⟨c, r, x⟩ := m
   cases r with
-  | lexer l => exact lexAct_state a c l x
+  | lexer l => exact lexAct_cstate a c l x
   | scanner s => exact (scanAct_frame a c s x).1.state
 
 theorem runCalls_state (cs : List Call) (m : M κ) : (runCalls env inp cs m).1.c.state = m.c.state := by
@@ -134,7 +134,8 @@ theorem runCalls_state (cs : List Call) (m : M κ) : (runCalls env inp cs m).1.c
 /-! ### the interface -/
 
 /-- interface of a phase-indexed invariant `I` (hand-over postcondition `J`) -/
-structure PhInv (env : Env κ) (inp : Bytes) (I : Ab → M κ → Prop) (J : Directive → Bookmark → M κ → Prop) : Prop where
+structure PhInv (env : Env κ) (inp : Bytes) (Uerr : Err → Prop) (I : Ab → M κ → Prop) (J : Directive → Bookmark → M κ → Prop) : Prop where
+  sub : ∀ e, Uerr e → U3err e
   frame : ∀ ab (m : M κ) (c' : Common), I ab m → I ab { m with c := c' }
   adjust : ∀ ab m, I ab m → I ab (adjustForNextInput m)
   enter : ∀ ab m, I ab m → I ab (enterSeq m)
@@ -143,25 +144,25 @@ structure PhInv (env : Env κ) (inp : Bytes) (I : Ab → M κ → Prop) (J : Dir
   act : ∀ a ab ab' m, I ab m → phAct a ab = some ab' →
     match (act env a inp m).2 with
     | none => I ab' (act env a inp m).1
-    | some (.err e) => ¬ U2err e ∧ (silentAct a = true → I ab' (act env a inp m).1)
+    | some (.err e) => ¬ Uerr e ∧ (silentAct a = true → I ab' (act env a inp m).1)
     | some (.directive d bm) => silentAct a = false ∧ J d bm (act env a inp m).1
     | some (.endOfInput _) => False
 
 /-- postcondition of a state-function call -/
-def WalkPost (P : PLabels) (I : Ab → M κ → Prop) (J : Directive → Bookmark → M κ → Prop) (r : StepRes κ) : Prop :=
+def WalkPost (Uerr : Err → Prop) (P : PLabels) (I : Ab → M κ → Prop) (J : Directive → Bookmark → M κ → Prop) (r : StepRes κ) : Prop :=
   match r.2 with
   | none => I (P.at r.1.c.state) r.1
   | some (.endOfInput _) => I (P.at r.1.c.state) r.1
-  | some (.err e) => ¬ U2err e
+  | some (.err e) => ¬ Uerr e
   | some (.directive d bm) => J d bm r.1
 
-variable {I : Ab → M κ → Prop} {J : Directive → Bookmark → M κ → Prop} {P : PLabels}
+variable {Uerr : Err → Prop} {I : Ab → M κ → Prop} {J : Directive → Bookmark → M κ → Prop} {P : PLabels}
 
-theorem runCalls_walk (h : PhInv env inp I J) (cs : List Call) (ab ab' : Ab) (habs : phCalls cs ab = some ab')
+theorem runCalls_walk (h : PhInv env inp Uerr I J) (cs : List Call) (ab ab' : Ab) (habs : phCalls cs ab = some ab')
     (hq : callsOk cs = true) (m : M κ) (hm : I ab m) :
     match (runCalls env inp cs m).2 with
     | none => I ab' (runCalls env inp cs m).1
-    | some (.err e) => ¬ U2err e
+    | some (.err e) => ¬ Uerr e
     | some (.directive d bm) => J d bm (runCalls env inp cs m).1
     | some (.endOfInput _) => False := by
   induction cs generalizing ab m with
@@ -204,10 +205,10 @@ theorem runCalls_walk (h : PhInv env inp I J) (cs : List Call) (ab ab' : Ab) (ha
         exact ih ab1 habs hq.2 _ hI
 
 /-- an action list started in phase `ab0` (not necessarily the label of the state: the tail of a list) -/
-theorem runSeq_walk' (h : PhInv env inp I J) (q : ActSeq) (self : StateId) (ab0 ab' : Ab)
+theorem runSeq_walk' (h : PhInv env inp Uerr I J) (q : ActSeq) (self : StateId) (ab0 ab' : Ab)
     (hq : callsOk q.calls = true) (habs : phCalls q.calls ab0 = some ab') (hp : transOk env.tbl P self ab' q.trans = true)
     (m : M κ) (hm : I ab0 m) (hst : m.c.state = self) :
-    WalkPost P I J ((runSeq env inp q m).1, (runSeq env inp q m).2.1) ∧
+    WalkPost Uerr P I J ((runSeq env inp q m).1, (runSeq env inp q m).2.1) ∧
     ((runSeq env inp q m).2.1 = none → (runSeq env inp q m).2.2 = .fell → (runSeq env inp q m).1.c.state = self) := by
   have hc := runCalls_walk h q.calls _ _ habs hq m hm
   have hstate := runCalls_state (env := env) (inp := inp) q.calls m
@@ -245,7 +246,7 @@ theorem runSeq_walk' (h : PhInv env inp I J) (q : ActSeq) (self : StateId) (ab0 
         simp only [applyTrans]
         split
         · refine ⟨?_, fun hn => by cases hn⟩
-          simp [WalkPost, U2err, U2]
+          exact fun hu => absurd (h.sub _ hu) (by simp [U3err, U2err, U2, guardSite])
         · refine ⟨?_, fun _ hf => by cases hf⟩
           simp only [WalkPost]
           exact h.le _ _ _ hp (h.frame _ _ _ hc)
@@ -256,9 +257,9 @@ theorem runSeq_walk' (h : PhInv env inp I J) (q : ActSeq) (self : StateId) (ab0 
         simp only [WalkPost]
         exact h.le _ _ _ (hp _ (textState_mem _ _)) (h.frame _ _ _ hc)
 
-theorem runSeq_walk (h : PhInv env inp I J) (q : ActSeq) (self : StateId) (hp : seqOkP env.tbl P self q = true)
+theorem runSeq_walk (h : PhInv env inp Uerr I J) (q : ActSeq) (self : StateId) (hp : seqOkP env.tbl P self q = true)
     (m : M κ) (hm : I (P.at self) m) (hst : m.c.state = self) :
-    WalkPost P I J ((runSeq env inp q m).1, (runSeq env inp q m).2.1) ∧
+    WalkPost Uerr P I J ((runSeq env inp q m).1, (runSeq env inp q m).2.1) ∧
     ((runSeq env inp q m).2.1 = none → (runSeq env inp q m).2.2 = .fell → (runSeq env inp q m).1.c.state = self) := by
   simp only [seqOkP, Bool.and_eq_true] at hp
   obtain ⟨hq, hp⟩ := hp
@@ -268,9 +269,9 @@ theorem runSeq_walk (h : PhInv env inp I J) (q : ActSeq) (self : StateId) (hp : 
     simp only [habs] at hp
     exact runSeq_walk' h q self _ _ hq habs hp m hm hst
 
-theorem runBody_walk (h : PhInv env inp I J) (b : Body) (self : StateId) (hp : bodyOkP env.tbl P self b = true)
+theorem runBody_walk (h : PhInv env inp Uerr I J) (b : Body) (self : StateId) (hp : bodyOkP env.tbl P self b = true)
     (m : M κ) (hm : I (P.at self) m) (hst : m.c.state = self) :
-    WalkPost P I J ((runBody env inp b m).1, (runBody env inp b m).2.1) ∧
+    WalkPost Uerr P I J ((runBody env inp b m).1, (runBody env inp b m).2.1) ∧
     ((runBody env inp b m).2.1 = none → (runBody env inp b m).2.2 = .fell → (runBody env inp b m).1.c.state = self) := by
   cases b with
   | seq q => exact runSeq_walk h q self hp m hm hst
@@ -279,7 +280,7 @@ theorem runBody_walk (h : PhInv env inp I J) (b : Body) (self : StateId) (hp : b
     simp only [runBody]
     split
     · refine ⟨?_, fun hn => by cases hn⟩
-      simp [WalkPost, U2err, U2]
+      exact fun hu => absurd (h.sub _ hu) (by simp [U3err, U2err, U2, guardSite])
     · exact runSeq_walk h x self hp.1.2 m hm hst
     · exact runSeq_walk h y self hp.2 m hm hst
 
@@ -289,18 +290,18 @@ theorem adjustForNextInput_c (m : M κ) : (adjustForNextInput m).c = m.c := by
   · rfl
   · split <;> rfl
 
-theorem break_walk (h : PhInv env inp I J) (m : M κ) (hm : I (P.at m.c.state) m) :
-    WalkPost P I J (breakOnEndOfInput inp m) := by
+theorem break_walk (h : PhInv env inp Uerr I J) (m : M κ) (hm : I (P.at m.c.state) m) :
+    WalkPost Uerr P I J (breakOnEndOfInput inp m) := by
   unfold breakOnEndOfInput
   dsimp only
   have key : ∀ m' : M κ, I (P.at m'.c.state) m' →
-      WalkPost P I J (if m'.c.nextPos = 0 ∨ m'.c.nextPos - 1 < consumedByteCount inp m then
+      WalkPost Uerr P I J (if m'.c.nextPos = 0 ∨ m'.c.nextPos - 1 < consumedByteCount inp m then
         (m', some (.err (.panic "break_on_end_of_input: pos - consumed_byte_count underflow")))
       else ({ m' with c := { m'.c with nextPos := m'.c.nextPos - 1 - consumedByteCount inp m } },
         some (.endOfInput (consumedByteCount inp m)))) := by
     intro m' hm'
     split
-    · simp [WalkPost, U2err, U2]
+    · exact fun hu => absurd (h.sub _ hu) (by simp [U3err, U2err, U2, guardSite])
     · simp only [WalkPost]
       exact h.frame _ _ _ hm'
   split
@@ -309,8 +310,8 @@ theorem break_walk (h : PhInv env inp I J) (m : M κ) (hm : I (P.at m.c.state) m
     rw [adjustForNextInput_c]
     exact h.adjust _ _ hm
 
-theorem finishArm_walk (h : PhInv env inp I J) (r : M κ × Option Signal × SeqEnd)
-    (hr : WalkPost P I J (r.1, r.2.1)) : WalkPost P I J (finishArm inp r) := by
+theorem finishArm_walk (h : PhInv env inp Uerr I J) (r : M κ × Option Signal × SeqEnd)
+    (hr : WalkPost Uerr P I J (r.1, r.2.1)) : WalkPost Uerr P I J (finishArm inp r) := by
   unfold finishArm
   split
   · rename_i sig _ hs
@@ -323,10 +324,10 @@ theorem finishArm_walk (h : PhInv env inp I J) (r : M κ × Option Signal × Seq
     simp only [WalkPost, hs] at hr
     exact break_walk h _ hr
 
-theorem runSeqArms_walk (h : PhInv env inp I J) (self : StateId) (ch : Option UInt8) (arms : List Arm)
+theorem runSeqArms_walk (h : PhInv env inp Uerr I J) (self : StateId) (ch : Option UInt8) (arms : List Arm)
     (hsub : ∀ a ∈ arms, bodyOkP env.tbl P self a.body = true) (m : M κ) (hm : I (P.at self) m) (hst : m.c.state = self) :
     match runSeqArms env inp ch arms m with
-    | .inl r => WalkPost P I J r
+    | .inl r => WalkPost Uerr P I J r
     | .inr m' => I (P.at self) m' ∧ m'.c.state = self := by
   induction arms generalizing m with
   | nil => simp only [runSeqArms]; exact ⟨hm, hst⟩
@@ -361,12 +362,12 @@ theorem runSeqArms_walk (h : PhInv env inp I J) (self : StateId) (ch : Option UI
       rw [runSeqArms_cons_other ch arm rest m hnp]
       exact ih hrest m hm hst
 
-theorem afterSeq_walk (h : PhInv env inp I J) (self : StateId) (ch : Option UInt8) (arms : List Arm)
+theorem afterSeq_walk (h : PhInv env inp Uerr I J) (self : StateId) (ch : Option UInt8) (arms : List Arm)
     (hsub : ∀ a ∈ arms, bodyOkP env.tbl P self a.body = true) (m : M κ) (hm : I (P.at self) m) (hst : m.c.state = self) :
-    WalkPost P I J (afterSeq env inp ch arms m) := by
+    WalkPost Uerr P I J (afterSeq env inp ch arms m) := by
   unfold afterSeq
   cases hf : findArm env.tbl m.c ch arms with
-  | none => simp [WalkPost, U2err, U2]
+  | none => exact fun hu => absurd (h.sub _ hu) (by simp [U3err, U2err, U2, guardSite])
   | some arm =>
     have harm := hsub arm (findArm_sel hf).1
     dsimp only
@@ -377,9 +378,9 @@ theorem afterSeq_walk (h : PhInv env inp I J) (self : StateId) (ch : Option UInt
       · apply break_walk h; rw [hst]; exact hm
     · exact (runBody_walk h arm.body self harm m hm hst).1
 
-theorem dispatch_walk (h : PhInv env inp I J) (self : StateId) (ch : Option UInt8) (arms : List Arm)
+theorem dispatch_walk (h : PhInv env inp Uerr I J) (self : StateId) (ch : Option UInt8) (arms : List Arm)
     (hsub : ∀ a ∈ arms, bodyOkP env.tbl P self a.body = true) (m : M κ) (hm : I (P.at self) m) (hst : m.c.state = self) :
-    WalkPost P I J (dispatch env inp ch arms m) := by
+    WalkPost Uerr P I J (dispatch env inp ch arms m) := by
   rw [dispatch_eq]
   have := runSeqArms_walk (inp := inp) h self ch arms hsub m hm hst
   cases hs : runSeqArms env inp ch arms m with
@@ -387,11 +388,11 @@ theorem dispatch_walk (h : PhInv env inp I J) (self : StateId) (ch : Option UInt
   | inr m' => rw [hs] at this; exact afterSeq_walk h self ch arms hsub m' this.1 this.2
 
 /-- **the generic walk**: a state-function call keeps a phase-indexed invariant -/
-theorem stateFn_walk (h : PhInv env inp I J) (hph : PhaseOk env.tbl P = true) (m : M κ) (hm : I (P.at m.c.state) m) :
-    WalkPost P I J (stateFn env inp m) := by
+theorem stateFn_walk (h : PhInv env inp Uerr I J) (hph : PhaseOk env.tbl P = true) (m : M κ) (hm : I (P.at m.c.state) m) :
+    WalkPost Uerr P I J (stateFn env inp m) := by
   rw [stateFn_preConsume]
   cases hsd : env.tbl.state? m.c.state with
-  | none => simp [WalkPost, U2err, U2]
+  | none => exact fun hu => absurd (h.sub _ hu) (by simp [U3err, U2err, U2, guardSite])
   | some sd =>
     have hP := PhaseOk_state hph hsd
     simp only [stateOkP, Bool.and_eq_true, beq_iff_eq, List.all_eq_true] at hP
@@ -399,7 +400,7 @@ theorem stateFn_walk (h : PhInv env inp I J) (hph : PhaseOk env.tbl P = true) (m
     dsimp only
     have hpre : ((preStep env inp sd m).2 = none →
           I (P.at m.c.state) (preStep env inp sd m).1 ∧ (preStep env inp sd m).1.c.state = m.c.state) ∧
-        (∀ sig, (preStep env inp sd m).2 = some sig → WalkPost P I J ((preStep env inp sd m).1, some sig)) := by
+        (∀ sig, (preStep env inp sd m).2 = some sig → WalkPost Uerr P I J ((preStep env inp sd m).1, some sig)) := by
       by_cases hen : (!sd.enter.isEmpty && !m.c.entered) = true
       · have h1 : I (P.at m.c.state) ({ m with c := { m.c with nextPos := m.c.nextPos + 1 } } : M κ) := h.frame _ _ _ hm
         have hc := runCalls_walk h sd.enter _ _ habs hq _ h1
@@ -449,16 +450,16 @@ theorem stateFn_walk (h : PhInv env inp I J) (hph : PhaseOk env.tbl P = true) (m
       · exact dispatch_walk h _ _ sd.arms harms _ (key _) hstate
 
 /-- postcondition of a run of the parsing loop -/
-def LoopPost (P : PLabels) (I : Ab → M κ → Prop) (J : Directive → Bookmark → M κ → Prop) (r : M κ × Signal) : Prop :=
+def LoopPost (Uerr : Err → Prop) (P : PLabels) (I : Ab → M κ → Prop) (J : Directive → Bookmark → M κ → Prop) (r : M κ × Signal) : Prop :=
   match r.2 with
   | .endOfInput _ => I (P.at r.1.c.state) r.1
-  | .err e => ¬ U2err e
+  | .err e => ¬ Uerr e
   | .directive d bm => J d bm r.1
 
-theorem runLoop_walk (h : PhInv env inp I J) (hph : PhaseOk env.tbl P = true) (n : Nat) (m : M κ)
-    (hm : I (P.at m.c.state) m) : LoopPost P I J (runLoop env inp n m) := by
+theorem runLoop_walk (h : PhInv env inp Uerr I J) (hph : PhaseOk env.tbl P = true) (n : Nat) (m : M κ)
+    (hm : I (P.at m.c.state) m) : LoopPost Uerr P I J (runLoop env inp n m) := by
   induction n generalizing m with
-  | zero => simp [runLoop, LoopPost, U2err, U2]
+  | zero => exact fun hu => absurd (h.sub _ hu) (by simp [U3err, U2err, U2, guardSite])
   | succ n ih =>
     have h1 := stateFn_walk h hph m hm
     simp only [runLoop]
@@ -476,8 +477,8 @@ theorem runLoop_walk (h : PhInv env inp I J) (hph : PhaseOk env.tbl P = true) (n
       | directive d bm => exact h1
 
 /-- the loop after a first step whose outcome is known -/
-theorem runLoop_after (h : PhInv env inp I J) (hph : PhaseOk env.tbl P = true) (n : Nat) (m : M κ)
-    (h1 : WalkPost P I J (stateFn env inp m)) : LoopPost P I J (runLoop env inp (n + 1) m) := by
+theorem runLoop_after (h : PhInv env inp Uerr I J) (hph : PhaseOk env.tbl P = true) (n : Nat) (m : M κ)
+    (h1 : WalkPost Uerr P I J (stateFn env inp m)) : LoopPost Uerr P I J (runLoop env inp (n + 1) m) := by
   simp only [runLoop]
   cases hs : (stateFn env inp m).2 with
   | none =>
